@@ -1,8 +1,390 @@
 //! Verification hook (compiled only with `--cfg quinn_rs_quinn_verif`).
+//!
+//! Component `flow_send`: the send side of `StreamsState` (flow-control credit, stream-count
+//! credit, send window) driven through the real `Streams` / `SendStream` / `StreamsState` methods.
+//! The interpreter is shared with component `zero_rtt` (see `zero_rtt.rs`).
+//!
+//! Every observation is `result ++ summary` where
+//! `summary = [next_bi, next_uni, max_bi, max_uni, max_data, data_sent, unacked_data, send_streams]`.
+//!
+//! Operations (`x?` = argument must be a `VarInt`, otherwise the op answers `[-2] ++ summary`
+//! and does nothing):
+//! ```text
+//!  [0, side, max_remote_uni, max_remote_bi, send_window]   (re)create: StreamsState::new    -> [0]
+//!  [1, max_data?, streams_bidi?, streams_uni?, sd_bidi_local?, sd_bidi_remote?, sd_uni?]
+//!                                                           set_params                       -> [0]
+//!  [2, dir]            Streams::open                      -> [0, id] | [1] (None)
+//!  [3, id, n]          SendStream::write of n bytes        -> [0, written] | [1] Blocked | [2, code] Stopped | [3] ClosedStream
+//!  [4, id]             SendStream::finish                  -> [0] | [1, code] Stopped | [2] ClosedStream
+//!  [5, id]             SendStream::reset(0)                -> [0] | [1] ClosedStream
+//!  [6, v?]             received_max_data                   -> [0]
+//!  [7, id, v]          received_max_stream_data            -> [0] | [1] recv-only | [2] unopened | [3, code] other
+//!  [8, dir, count]     received_max_streams                -> [0] | [1] FRAME_ENCODING_ERROR | [3, code] other
+//!  [9, max_buf]        write_stream_frames(buf, max_buf, fair = true); every frame is appended to
+//!                      the sent-frame log                  -> [nframes, buf_len, (id, start, end, fin)*]
+//!  [10, k]             received_ack_of(log[k]) if log[k] is live (then consumed) -> [0] | [1] not live
+//!  [11, k]             retransmit(log[k]) (frame lost) if live (then consumed)   -> [0] | [1] not live
+//!  [13, w]             set_send_window                     -> [0]
+//!  [14]                zero_rtt_rejected; the sent-frame log is discarded (as `Connection` discards
+//!                      its 0-RTT sent packets)            -> [0]
+//!  [15]                poll                                -> [0] none | [1, dir] Opened | [2, id] Writable
+//!                                                            | [3, id] Finished | [4, id, code] Stopped
+//!                                                            | [5, dir] Available | [6, id] Readable
+//!  [16, id, code?]     received_stop_sending               -> [0]
+//!  [17, id]            reset_acked                         -> [0]
+//!  [18, dir]           Streams::accept                     -> [0, id] | [1] (None)
+//!  [19]                full projection                     -> see `observe`
+//! ```
+//! Log discipline of ops 10/11 (each sent frame is acknowledged or declared lost at most once,
+//! and never after a 0-RTT rejection) mirrors `Connection`'s sent-packet table; it is harness
+//! book-keeping, not component logic.
 #![allow(missing_docs, dead_code, unused_imports, unreachable_pub, clippy::all)]
 use super::{Ops, Outs};
+use crate::{
+    Dir, Side, StreamId, TransportErrorCode, VarInt,
+    connection::{
+        State as ConnState,
+        spaces::Retransmits,
+        streams::{
+            FinishError, SendStream, StreamEvent, Streams, StreamsState, WriteError,
+            send::SendState,
+        },
+    },
+    frame::StreamMeta,
+    transport_parameters::TransportParameters,
+};
 
-/// Interpret `ops` for component `comp`; `None` if `comp` is not served by this module.
-pub(crate) fn run(_comp: &str, _ops: &Ops) -> Option<Outs> {
-    None
+pub(super) struct Ctx {
+    pub(super) side: Side,
+    pub(super) max_remote_uni: u64,
+    pub(super) max_remote_bi: u64,
+    pub(super) st: StreamsState,
+    pub(super) log: Vec<Option<StreamMeta>>,
+    pub(super) pending: Retransmits,
+    pub(super) conn: ConnState,
+}
+
+fn side_of(x: i128) -> Side {
+    if x == 0 { Side::Client } else { Side::Server }
+}
+
+fn dir_of(x: i128) -> Dir {
+    if x == 0 { Dir::Bi } else { Dir::Uni }
+}
+
+fn vi(x: i128) -> Option<VarInt> {
+    if x < 0 || x > u64::MAX as i128 {
+        return None;
+    }
+    VarInt::from_u64(x as u64).ok()
+}
+
+pub(super) fn params_of(a: &[i128]) -> Option<TransportParameters> {
+    let mut p = TransportParameters::default();
+    p.initial_max_data = vi(a[0])?;
+    p.initial_max_streams_bidi = vi(a[1])?;
+    p.initial_max_streams_uni = vi(a[2])?;
+    p.initial_max_stream_data_bidi_local = vi(a[3])?;
+    p.initial_max_stream_data_bidi_remote = vi(a[4])?;
+    p.initial_max_stream_data_uni = vi(a[5])?;
+    Some(p)
+}
+
+impl Ctx {
+    pub(super) fn new(side: Side, max_remote_uni: u64, max_remote_bi: u64, send_window: u64) -> Self {
+        Self {
+            side,
+            max_remote_uni,
+            max_remote_bi,
+            st: StreamsState::new(
+                side,
+                VarInt::from_u64(max_remote_uni).unwrap(),
+                VarInt::from_u64(max_remote_bi).unwrap(),
+                send_window,
+                VarInt::from_u32(1 << 20),
+                VarInt::from_u32(1 << 20),
+            ),
+            log: Vec::new(),
+            pending: Retransmits::default(),
+            conn: ConnState::Established,
+        }
+    }
+
+    pub(super) fn summary(&self) -> Vec<i128> {
+        let s = &self.st;
+        vec![
+            s.next[0] as i128,
+            s.next[1] as i128,
+            s.max[0] as i128,
+            s.max[1] as i128,
+            s.max_data as i128,
+            s.data_sent as i128,
+            s.unacked_data as i128,
+            s.send_streams as i128,
+        ]
+    }
+
+    /// Full projection:
+    /// `[send_window, write_limit, streams_blocked_bi, streams_blocked_uni, events_len, opened_bi,
+    ///   opened_uni, next_remote_bi, next_reported_remote_bi, sd_uni, sd_bidi_local, sd_bidi_remote,
+    ///   ncb, connection_blocked ids.., npend, pending ids in pop order.., nstreams,
+    ///   (id, has_send, max_data, offset, state, fin_pending, connection_blocked, stop, unacked,
+    ///    has_unsent, fully_acked)*]` with streams sorted by id, `state` 0 Ready / 1 DataSent /
+    ///   2 DataSent(finish acked) / 3 ResetSent, `stop` = -1 or the code.
+    pub(super) fn observe(&self) -> Vec<i128> {
+        let s = &self.st;
+        let (events_len, opened) = s.verif_private();
+        let probe = |id: StreamId| s.max_send_data(id).into_inner() as i128;
+        let mut o = vec![
+            s.send_window as i128,
+            s.write_limit() as i128,
+            s.streams_blocked[0] as i128,
+            s.streams_blocked[1] as i128,
+            events_len as i128,
+            opened[0] as i128,
+            opened[1] as i128,
+            s.next_remote[0] as i128,
+            s.next_reported_remote[0] as i128,
+            probe(StreamId::new(self.side, Dir::Uni, 0)),
+            probe(StreamId::new(!self.side, Dir::Bi, 0)),
+            probe(StreamId::new(self.side, Dir::Bi, 0)),
+        ];
+        o.push(s.connection_blocked.len() as i128);
+        o.extend(s.connection_blocked.iter().map(|id| u64::from(*id) as i128));
+        let mut pend: Vec<(u64, u64)> = s
+            .pending
+            .iter()
+            .map(|p| (p.recency, u64::from(p.id)))
+            .collect();
+        pend.sort_by(|a, b| b.0.cmp(&a.0));
+        o.push(pend.len() as i128);
+        o.extend(pend.iter().map(|p| p.1 as i128));
+        let mut ids: Vec<StreamId> = s.send.keys().cloned().collect();
+        ids.sort_by_key(|id| u64::from(*id));
+        o.push(ids.len() as i128);
+        for id in ids {
+            o.push(u64::from(id) as i128);
+            match s.send.get(&id).unwrap() {
+                None => o.extend([0i128; 10]),
+                Some(snd) => {
+                    o.push(1);
+                    o.push(snd.max_data as i128);
+                    o.push(snd.offset() as i128);
+                    o.push(match snd.state {
+                        SendState::Ready => 0,
+                        SendState::DataSent { finish_acked: false } => 1,
+                        SendState::DataSent { finish_acked: true } => 2,
+                        SendState::ResetSent => 3,
+                    });
+                    o.push(snd.fin_pending as i128);
+                    o.push(snd.connection_blocked as i128);
+                    o.push(match snd.stop_reason {
+                        None => -1,
+                        Some(c) => c.into_inner() as i128,
+                    });
+                    o.push(snd.pending.unacked() as i128);
+                    o.push(snd.pending.has_unsent_data() as i128);
+                    o.push(snd.pending.is_fully_acked() as i128);
+                }
+            }
+        }
+        o
+    }
+
+    /// Apply one op; returns the result part of the observation (`None` = op not handled here).
+    pub(super) fn apply(&mut self, op: &[i128]) -> Vec<i128> {
+        let arg = |i: usize| op.get(i).cloned().unwrap_or(0);
+        let u = |i: usize| arg(i) as u64;
+        match arg(0) {
+            0 => {
+                *self = Self::new(side_of(arg(1)), u(2), u(3), u(4));
+                vec![0]
+            }
+            1 => {
+                let a: Vec<i128> = (1..7).map(arg).collect();
+                match params_of(&a) {
+                    Some(p) => {
+                        self.st.set_params(&p);
+                        vec![0]
+                    }
+                    None => vec![-2],
+                }
+            }
+            2 => {
+                let mut s = Streams {
+                    state: &mut self.st,
+                    conn_state: &self.conn,
+                };
+                match s.open(dir_of(arg(1))) {
+                    Some(id) => vec![0, u64::from(id) as i128],
+                    None => vec![1],
+                }
+            }
+            3 => {
+                let data = vec![0xABu8; u(2) as usize];
+                let mut s = SendStream {
+                    id: StreamId(u(1)),
+                    state: &mut self.st,
+                    pending: &mut self.pending,
+                    conn_state: &self.conn,
+                };
+                match s.write(&data) {
+                    Ok(n) => vec![0, n as i128],
+                    Err(WriteError::Blocked) => vec![1],
+                    Err(WriteError::Stopped(c)) => vec![2, c.into_inner() as i128],
+                    Err(WriteError::ClosedStream) => vec![3],
+                }
+            }
+            4 => {
+                let mut s = SendStream {
+                    id: StreamId(u(1)),
+                    state: &mut self.st,
+                    pending: &mut self.pending,
+                    conn_state: &self.conn,
+                };
+                match s.finish() {
+                    Ok(()) => vec![0],
+                    Err(FinishError::Stopped(c)) => vec![1, c.into_inner() as i128],
+                    Err(FinishError::ClosedStream) => vec![2],
+                }
+            }
+            5 => {
+                let mut s = SendStream {
+                    id: StreamId(u(1)),
+                    state: &mut self.st,
+                    pending: &mut self.pending,
+                    conn_state: &self.conn,
+                };
+                match s.reset(VarInt::from_u32(0)) {
+                    Ok(()) => vec![0],
+                    Err(_) => vec![1],
+                }
+            }
+            6 => match vi(arg(1)) {
+                Some(v) => {
+                    self.st.received_max_data(v);
+                    vec![0]
+                }
+                None => vec![-2],
+            },
+            7 => match self.st.received_max_stream_data(StreamId(u(1)), u(2)) {
+                Ok(()) => vec![0],
+                Err(e) => {
+                    if e.code == TransportErrorCode::STREAM_STATE_ERROR && e.reason.contains("recv-only") {
+                        vec![1]
+                    } else if e.code == TransportErrorCode::STREAM_STATE_ERROR && e.reason.contains("unopened") {
+                        vec![2]
+                    } else {
+                        vec![3, u64::from(e.code) as i128]
+                    }
+                }
+            },
+            8 => match self.st.received_max_streams(dir_of(arg(1)), u(2)) {
+                Ok(()) => vec![0],
+                Err(e) => {
+                    if e.code == TransportErrorCode::FRAME_ENCODING_ERROR {
+                        vec![1]
+                    } else {
+                        vec![3, u64::from(e.code) as i128]
+                    }
+                }
+            },
+            9 => {
+                let mut buf = Vec::new();
+                let metas = self.st.write_stream_frames(&mut buf, u(1) as usize, true);
+                let mut o = vec![metas.len() as i128, buf.len() as i128];
+                for m in metas {
+                    o.push(u64::from(m.id) as i128);
+                    o.push(m.offsets.start as i128);
+                    o.push(m.offsets.end as i128);
+                    o.push(m.fin as i128);
+                    self.log.push(Some(m));
+                }
+                o
+            }
+            10 | 11 => {
+                let k = arg(1);
+                let live = if k >= 0 && (k as usize) < self.log.len() {
+                    self.log[k as usize].take()
+                } else {
+                    None
+                };
+                match live {
+                    Some(m) => {
+                        if arg(0) == 10 {
+                            self.st.received_ack_of(m);
+                        } else {
+                            self.st.retransmit(m);
+                        }
+                        vec![0]
+                    }
+                    None => vec![1],
+                }
+            }
+            13 => {
+                self.st.set_send_window(u(1));
+                vec![0]
+            }
+            14 => {
+                self.st.zero_rtt_rejected();
+                self.pending = Retransmits::default();
+                for e in self.log.iter_mut() {
+                    *e = None;
+                }
+                vec![0]
+            }
+            15 => match self.st.poll() {
+                None => vec![0],
+                Some(StreamEvent::Opened { dir }) => vec![1, dir as i128],
+                Some(StreamEvent::Writable { id }) => vec![2, u64::from(id) as i128],
+                Some(StreamEvent::Finished { id }) => vec![3, u64::from(id) as i128],
+                Some(StreamEvent::Stopped { id, error_code }) => {
+                    vec![4, u64::from(id) as i128, error_code.into_inner() as i128]
+                }
+                Some(StreamEvent::Available { dir }) => vec![5, dir as i128],
+                Some(StreamEvent::Readable { id }) => vec![6, u64::from(id) as i128],
+            },
+            16 => match vi(arg(2)) {
+                Some(c) => {
+                    self.st.received_stop_sending(StreamId(u(1)), c);
+                    vec![0]
+                }
+                None => vec![-2],
+            },
+            17 => {
+                self.st.reset_acked(StreamId(u(1)));
+                vec![0]
+            }
+            18 => {
+                let mut s = Streams {
+                    state: &mut self.st,
+                    conn_state: &self.conn,
+                };
+                match s.accept(dir_of(arg(1))) {
+                    Some(id) => vec![0, u64::from(id) as i128],
+                    None => vec![1],
+                }
+            }
+            19 => self.observe(),
+            _ => vec![-1],
+        }
+    }
+
+    pub(super) fn step(&mut self, op: &[i128]) -> Vec<i128> {
+        let mut o = self.apply(op);
+        o.extend(self.summary());
+        o
+    }
+}
+
+fn flow_send(ops: &Ops) -> Outs {
+    let mut ctx = Ctx::new(Side::Client, 0, 0, 1 << 20);
+    ops.iter().map(|op| ctx.step(op)).collect()
+}
+
+pub(crate) fn run(comp: &str, ops: &Ops) -> Option<Outs> {
+    match comp {
+        "flow_send" => Some(flow_send(ops)),
+        _ => None,
+    }
 }
